@@ -468,7 +468,7 @@ func modeCache(seed uint64, n int, out *sx.Out) {
 		})
 		caches := []*aucoalesce.EntityCache{users, groups}
 		keys := []string{"0", "root", "1000", "1001", "alice", "staff", "x9", "xbob", "", "unset", "0 ", "7"}
-		var ops, obs []string
+		var ops, obs, returned []string
 		paused := false
 		// one scripted run per class of pauses: pin, hit, miss, hit, pause, then the pinned key (still pinned) and the cached one (expired)
 		script := []int{}
@@ -505,6 +505,10 @@ func modeCache(seed uint64, n int, out *sx.Out) {
 				obs = append(obs, "None")
 			default:
 				w, kind, key := r.Intn(2), r.Intn(2), sx.Pick(r, keys)
+				if len(returned) > 0 && r.Chance(1, 4) {
+					// an answer given earlier, asked back (often in the other direction of the same cache: id -> name -> id)
+					key = sx.Pick(r, returned)
+				}
 				if scripted == 2 {
 					w, kind, key = 0, 0, "1000"
 				} else if scripted == 3 {
@@ -520,6 +524,9 @@ func modeCache(seed uint64, n int, out *sx.Out) {
 				a := "None"
 				if asked != nil {
 					a = "(Some " + cs(*asked) + ")"
+				}
+				if v != "" {
+					returned = append(returned, v)
 				}
 				ops = append(ops, fmt.Sprintf("CLookup %d %d %s", w, kind, cs(key)))
 				obs = append(obs, fmt.Sprintf("(Some (%s, %s))", cs(v), a))
